@@ -316,8 +316,8 @@ func newWorld(c *core.Ctx, pc poolCfg) (*world, error) {
 	w := &world{c: c, r: c.Rng, wc: wc, g: wc.g, pc: pc, lastCommit: wc.lastCommit,
 		byAddr: map[common.Address]*sender{}, committed: map[common.Hash]uint64{}, spent: map[lt.Key]common.Hash{},
 		tracked: map[common.Hash]*track{}, usedBy: map[lt.Key][]common.Hash{}, taint: map[common.Address]string{}, taintInfo: map[common.Address]string{}}
-	mempool.GoodTxDropTime = never
-	mempool.GoodTxRebroadcastTime = never
+	// (GoodTxRebroadcastTime is set once in initProc, before any pool exists: every pool's loop goroutine reads it when it starts)
+	mempool.GoodTxDropTime = never // only read by Update, i.e. by the goroutine that commits - the one writing it here
 	if w.N, err = chainkit.OpenNode(wc.g, wc.cloneDBs(), chainkit.NodeOpts{MemCfg: pc.memCfg()}); err != nil {
 		return nil, fmt.Errorf("open N: %v", err)
 	}
